@@ -239,6 +239,26 @@ def split_dump(d):
     return parts
 
 
+ADMIN_HEX = "61646d696e"
+
+
+def startup_admin_only(before, after):
+    """the only difference is the default admin row that start-up inserts into an empty T_USER"""
+    def users(d):
+        rows = []
+        for t in (d[0] if d and isinstance(d[0], list) else []):
+            if isinstance(t, dict) and t.get("name") == "T_USER":
+                rows += [r[0] for r in t.get("rows", [])]
+        return rows
+
+    def strip(d):
+        out = json.loads(json.dumps(d))
+        if out and isinstance(out[0], list):
+            out[0] = [t for t in out[0] if not (isinstance(t, dict) and t.get("name") == "T_USER")]
+        return [x for x in out if not (isinstance(x, dict) and x.get("tree") == "T_USER" and x.get("key") == ADMIN_HEX)]
+    return users(before) == [] and users(after) == [ADMIN_HEX] and strip(before) == strip(after)
+
+
 def classify_restart_diff(comp, a, b, case):
     """stable key of the known finding that explains a difference in component `comp`, or 'none'"""
     ds = json.dumps([a, b])
@@ -430,6 +450,11 @@ def run(chk, replay=None):
                     continue
                 d = lib.diff_first(before[comp], after[comp])
                 if comp == "out_of_scope":
+                    out_of_scope += 1
+                    continue
+                if comp == "table" and startup_admin_only(before[comp], after[comp]):
+                    # not persistence: with an EMPTY user table (the history dropped T_USER) the start-up code of the
+                    # node creates the default `admin` user again through a new raft write (log grows by one entry)
                     out_of_scope += 1
                     continue
                 key = classify_restart_diff(comp, before[comp], after[comp], c)
